@@ -73,6 +73,19 @@ Theorem C20_completion_refines_spec : forall (ws : list word) (typed : word),
   complete (build ws) typed = spec_complete ws typed.
 Proof. exact complete_refines_spec. Qed.
 
+(* one insertion as a step: on the trie of ANY history, inserting w changes the membership of w (if w is not empty) and of
+   no other word - what must not change is part of the statement *)
+Theorem C20_insert_changes_exactly_one_word : forall (ws : list word) (w v : word),
+  contains (insert (build ws) w) v = orb (contains (build ws) v) (andb (negb (is_nil w)) (weqb v w)).
+Proof. exact contains_insert_step. Qed.
+
+(* inserting the empty word or a word that is already there changes no answer (every definition inserts `name` again) *)
+Theorem C20_reinsertion_is_noop : forall (ws : list word) (w p : word),
+  w = [] \/ In w ws ->
+  snd (prefix_all (insert (build ws) w) p) = snd (prefix_all (build ws) p)
+  /\ (forall v, contains (insert (build ws) w) v = contains (build ws) v).
+Proof. exact insert_present_is_noop. Qed.
+
 Example C20_ex_spec :
   spec_prefix_all [[97;98;99];[];[98];[97;98;100];[97;98;99]]%N [97]%N = (2, [[97;98;99];[97;98;100]]%N)
   /\ spec_complete [[97;98;99];[97;98;100]]%N [97]%N = Some ([97;98]%N, 2)
@@ -86,3 +99,5 @@ Print Assumptions C20_order_independent.
 Print Assumptions C20_membership_order_independent.
 Print Assumptions C20_refines_sorted_set_spec.
 Print Assumptions C20_completion_refines_spec.
+Print Assumptions C20_insert_changes_exactly_one_word.
+Print Assumptions C20_reinsertion_is_noop.
